@@ -43,7 +43,7 @@
 extern const struct rcu_flavor_struct F(flavor);
 
 enum { H_ADD = 1, H_ADDU, H_ADDR, H_LOOK, H_DELN, H_REPLN, H_WALK, H_SCAN, H_COUNT, H_RESIZE };
-enum { CF_OVERLAP_UPDATE = 0, CF_RESIZE_CONCURRENT = 1, CF_MULTI_REMOVERS = 2, CF_READER_ON_REMOVED = 3, CF_DUP_KEY = 4, CF_LAZY_RESIZE = 5,
+enum { CF_BALLAST = 11, CF_OVERLAP_UPDATE = 0, CF_RESIZE_CONCURRENT = 1, CF_MULTI_REMOVERS = 2, CF_READER_ON_REMOVED = 3, CF_DUP_KEY = 4, CF_LAZY_RESIZE = 5,
        CF_LIN_INCONCLUSIVE = 6, CF_NODE_FREED = 7, CF_UNIQUE_RACE = 8, CF_SOLO_INFLIGHT = 9, CF_SOLO_MID_RESIZE = 10 };
 
 struct mynode { struct cds_lfht_node n; struct rcu_head rh; int key; int id; unsigned long chk; };
@@ -83,11 +83,13 @@ static NS int h_begin(int type, long a, long b, long c)
 	ds_note("call #%d %s(%ld,%ld)", nhist, tname(type), a, b);
 	return nhist++;
 }
+static NS int get_nballast(void);
 static NS void h_end(int idx, long r, long r2)
 {
 	struct hop *h = &hist[idx];
 	h->op.r = r; h->op.r2 = r2; h->op.ret = ds_now();
 	if (h->op.type == H_RESIZE) resizes_active--;
+	if (get_nballast()) ds_progress();	/* a completed operation is progress: read-only operations over long chains make no memory write for thousands of steps */
 	ds_note("ret  #%d %s -> %ld", idx, tname(h->op.type), r);
 }
 static NS void h_set(int idx, int id)
@@ -97,6 +99,23 @@ static NS void h_set(int idx, int id)
 	if (h->set >> id & 1) ds_fail("%s returned node %d twice", h->op.type == H_WALK ? "duplicate walk" : "traversal", id);
 	h->set |= 1ull << id; h->nset++;
 }
+/* ballast (cfg ballast N, ballast_hash M): N extra resident nodes with keys of their own (never looked up, removed or replaced by the programs), added
+ * by T0 before the threads start as one scheduling step, so that the generated operations run against long bucket chains (M=0: one chain of N nodes
+ * with distinct hashes in bucket 0) or a well-filled table (M=1: spread over all buckets), with whatever lazy growth the fill requested still pending.
+ * Every traversal must see each of them exactly once; count_nodes includes them. */
+#define MAXBALLAST 256
+static struct mynode *ballast; static int nballast;
+static NS int ballast_index(struct cds_lfht_node *p)
+{
+	struct mynode *m = caa_container_of(p, struct mynode, n);
+	if (!ballast || m < ballast || m >= ballast + nballast) return -1;
+	return (int)(m - ballast);
+}
+static NS int get_nballast(void) { return nballast; }
+struct bseen { unsigned char seen[MAXBALLAST]; int n; };
+static NS void bseen_reset(struct bseen *b) { memset(b, 0, sizeof *b); }
+static NS void bseen_add(struct bseen *b, int i, const char *what) { if (b->seen[i]++) ds_fail("%s returned resident (ballast) node %d twice", what, i); b->n++; }
+static NS void bseen_check(struct bseen *b, const char *what) { if (b->n != nballast) for (int i = 0; i < nballast; i++) if (!b->seen[i]) ds_fail("%s missed resident (ballast) node %d, which is in the table for the whole case (%d of %d seen)", what, i, b->n, nballast); }
 static NS int node_id_of(struct cds_lfht_node *p)
 {
 	if (!p) return (int)NONE;
@@ -270,10 +289,14 @@ static void run_program(int t)
 		case OP_SCAN: {
 			RLOCK(); h = h_begin(H_SCAN, 0, 0, 0);
 			int guard = 0;
+			struct bseen bs; bseen_reset(&bs);
 			for (cds_lfht_first(ht, &it); (r = cds_lfht_iter_get_node(&it)) != NULL; cds_lfht_next(ht, &it)) {
-				h_set(h, node_id_of(r));
-				if (++guard > 4 * MAXNODES) ds_fail("traversal does not terminate");
+				int bi = ballast_index(r);
+				ds_progress();
+				if (bi >= 0) bseen_add(&bs, bi, "traversal"); else h_set(h, node_id_of(r));
+				if (++guard > 4 * MAXNODES + 2 * MAXBALLAST) ds_fail("traversal does not terminate");
 			}
+			bseen_check(&bs, "traversal");
 			h_end(h, 0, 0); RUNLOCK();
 			break;
 		}
@@ -281,7 +304,7 @@ static void run_program(int t)
 			long ab, aa; unsigned long cnt;
 			RLOCK(); h = h_begin(H_COUNT, 0, 0, 0);
 			cds_lfht_count_nodes(ht, &ab, &cnt, &aa);
-			h_end(h, (long)cnt, 0); RUNLOCK();
+			h_end(h, (long)cnt - get_nballast(), 0); RUNLOCK();
 			break;
 		}
 		case OP_RESIZE:
@@ -434,6 +457,25 @@ static NS void check_history(uint64_t *final_state)
 }
 
 static int tids[8];
+static NS void set_ballast(struct mynode *b, int n) { ballast = b; nballast = n; }
+static void ballast_fill(void)
+{
+	int n = (int)ds_cfg("ballast", 0), mode = (int)ds_cfg("ballast_hash", 0);
+	if (n <= 0) return;
+	if (n > MAXBALLAST) ds_bad_case("too much ballast");
+	struct mynode *b = calloc((size_t)n, sizeof *b);
+	set_ballast(b, n);
+	ds_flag(CF_BALLAST);
+	ds_bulk(1);
+	RLOCK();
+	for (int i = 0; i < n; i++) {
+		cds_lfht_node_init(&b[i].n);
+		b[i].key = 100000 + i; b[i].id = -1; b[i].chk = 0;
+		cds_lfht_add(ht, mode == 0 ? (unsigned long)(i + 1) << 16 : (unsigned long)(i + 1) * 0x9E3779B1ul, &b[i].n);
+	}
+	RUNLOCK();
+	ds_bulk(0);
+}
 static void scenario(void)
 {
 	int np = ds_prog_threads();
@@ -449,6 +491,7 @@ static void scenario(void)
 	static pthread_attr_t rattr; pthread_attr_init(&rattr);
 	ht = _cds_lfht_new(init, mn, mx, flags, mms[mm % 3], &F(flavor), ds_cfg("attr", 1) ? &rattr : NULL);
 	if (!ht) ds_bad_case("cds_lfht_new refused the configuration");
+	ballast_fill();
 	run_program(0);
 	for (int t = 1; t < np; t++) tids[t] = ds_spawn(thread_main, (void *)(long)t);
 	for (int t = 1; t < np; t++) ds_join(tids[t]);
@@ -459,18 +502,27 @@ static void scenario(void)
 	{
 		struct cds_lfht_iter it; struct cds_lfht_node *r; uint64_t seen = 0;
 		RLOCK();
+		struct bseen bs; bseen_reset(&bs);
 		for (cds_lfht_first(ht, &it); (r = cds_lfht_iter_get_node(&it)) != NULL; cds_lfht_next(ht, &it)) {
+			int bi = ballast_index(r);
+			if (bi >= 0) { bseen_add(&bs, bi, "final traversal"); continue; }
 			int id = node_id_of(r);
 			if (seen >> id & 1) ds_fail("final traversal returned node %d twice", id);
 			seen |= 1ull << id;
 		}
 		RUNLOCK();
+		bseen_check(&bs, "final traversal");
 		if (seen != fin) ds_fail("final traversal returned node set %llx, the history determines %llx", (unsigned long long)seen, (unsigned long long)fin);
-		if (fin) {
+		if (fin || get_nballast()) {
 			int rc = cds_lfht_destroy(ht, NULL);
-			if (rc == 0) ds_fail("cds_lfht_destroy succeeded on a table that still holds %d nodes", __builtin_popcountll(fin));
+			if (rc == 0) ds_fail("cds_lfht_destroy succeeded on a table that still holds %d nodes", __builtin_popcountll(fin) + get_nballast());
 		}
 		RLOCK();
+		if (get_nballast()) {
+			ds_bulk(1);
+			for (int i = 0; i < nballast; i++) { int rc = cds_lfht_del(ht, &ballast[i].n); if (rc) { ds_bulk(0); ds_fail("final cds_lfht_del of resident (ballast) node %d returned %d", i, rc); } }
+			ds_bulk(0);
+		}
 		for (int id = 0; id < MAXNODES; id++) if (fin >> id & 1) {
 			int rc = cds_lfht_del(ht, &get_node(id)->n);
 			if (rc) ds_fail("final cds_lfht_del of resident node %d returned %d", id, rc);
